@@ -57,6 +57,10 @@ func (m *MethodScope) resolveVarNameConflict(suggested string) string {
 		if _, ok := m.registry.searchImport(suggested + strconv.Itoa(n)); ok {
 			continue
 		}
+		// Nor a predeclared identifier (ex: float3 numbered 2 is float32).
+		if types.Universe.Lookup(suggested+strconv.Itoa(n)) != nil {
+			continue
+		}
 
 		if n == 1 {
 			// The var holding the plain name may have been renamed since
